@@ -29,6 +29,7 @@ def run_threaded(sc):
     errors = {0: [], 1: []}
     layers = []
     cleanup = []
+    bad_pycan = []
 
     def jitter():
         if lat and rng.random() < 0.3:
@@ -147,6 +148,22 @@ def run_threaded(sc):
         buses = [can.interface.Bus(chan, interface='virtual', receive_own_messages=False, is_fd=fd) for _ in range(2)]
         noise_bus = can.interface.Bus(chan, interface='virtual', receive_own_messages=False, is_fd=fd)
         cleanup.extend(buses + [noise_bus])
+
+        def checked(bus):
+            # the virtual bus accepts anything; a real driver does not: every message the adapters hand to bus.send() must be a valid
+            # python-can message by python-can's own rule (can.Message(check=True): DLC = number of data bytes, FD flags consistent)
+            orig = bus.send
+
+            def send(msg, timeout=None):
+                try:
+                    can.Message(arbitration_id=msg.arbitration_id, data=msg.data, dlc=msg.dlc, is_extended_id=msg.is_extended_id,
+                                is_fd=msg.is_fd, bitrate_switch=msg.bitrate_switch, is_remote_frame=msg.is_remote_frame, check=True)
+                except ValueError as e:
+                    bad_pycan.append('dlc=%s len=%d fd=%s: %s' % (msg.dlc, len(msg.data), msg.is_fd, e))
+                return orig(msg, timeout)
+            bus.send = send
+        for bus in buses:
+            checked(bus)
         for i, ad in ((0, a), (1, b)):
             if kind == 'canstack':
                 L = isotp.CanStack(buses[i], address=core.make_address(ad), error_handler=mk_err(i), params=params[i], read_timeout=sc['read_timeout'])
@@ -302,7 +319,7 @@ def run_threaded(sc):
         for name, val in restore:
             setattr(proto, name, val)
     li, lo = threadrun.build_lines(rec, layer_lines)
-    sc['_result'] = {'received': received, 'errors': errors, 'send_exc': send_exc, 'send_exc_by_id': send_exc_by_id, 'stuck_senders': alive, 'stop_s': stop_s,
+    sc['_result'] = {'bad_pycan': bad_pycan[:3], 'received': received, 'errors': errors, 'send_exc': send_exc, 'send_exc_by_id': send_exc_by_id, 'stuck_senders': alive, 'stop_s': stop_s,
                      'steps': len(rec.log)}
     return li, lo
 
@@ -378,6 +395,15 @@ class C13(PropBase):
                    'params': ({'blocksize': 0, 'stmin': 0}, {'blocksize': 0, 'stmin': 80}), 'senders': senders, 'latency': 0,
                    'read_timeout': 0.05, 'noise': False, 'perturb': 0, 'cf_timeout_ms': 5000, 'fc_timeout_ms': 1000, 'send_delay': {1: 0.5}}
 
+        # CAN FD frames longer than 8 bytes through the python-can adapters (DLC code vs byte count)
+        for k, (transport, txdl) in enumerate([('canstack', 64), ('notifier', 12)] if tier == 'quick' else
+                                              [('canstack', 64), ('notifier', 12), ('canstack', 16), ('notifier', 48), ('canstack', 24), ('notifier', 64)]):
+            senders = {0: [[(1, bytes([0, 0, 0]) + bytes([0x55] * 150)), (2, bytes([0, 0, 1]) + bytes([0x56] * 9))]], 1: [[(3, bytes([1, 0, 0]) + bytes([0x66] * 70))]]}
+            fdp = {'blocksize': 4, 'stmin': 0, 'can_fd': True, 'tx_data_length': txdl, 'tx_padding': 0xCC if k % 2 else None}
+            fdp = {kk: v for kk, v in fdp.items() if v is not None}
+            yield {'ops': [], 'seed': 4400 + k, 'transport': transport, 'addrs': (a, b), 'params': (dict(fdp), dict(fdp)), 'senders': senders,
+                   'latency': 0, 'read_timeout': 0.05, 'noise': False, 'perturb': 0}
+
     def run_impl(self, sc):
         return run_threaded(sc)
 
@@ -393,6 +419,8 @@ class C13(PropBase):
         for i in (0, 1):
             if res['errors'][i]:
                 out.append(('no_error', 'layer %d reported %s' % (i, res['errors'][i][:3])))
+        if res.get('bad_pycan'):
+            out.append(('unmodified', 'the adapter handed python-can a message that python-can itself rejects (check=True): %s' % res['bad_pycan'][:2]))
         if res['send_exc']:
             out.append(('send', 'send() raised %s' % res['send_exc'][:3]))
         if res['stuck_senders']:
